@@ -19,7 +19,7 @@ Print Assumptions number_never_absorbs.
 Example number_never_absorbs_ex :
   lex_next (new_lexer (bs "12-3")) = LexTok (mkTok TNum 0 2) (mkLexer (bs "-3") 2 0) /\
   lex_next (new_lexer (bs "12.x")) = LexTok (mkTok TNum 0 2) (mkLexer (bs ".x") 2 0) /\
-  fst (lex_all (bs "1-2")) = [mkTok TNum 0 1; mkTok TMinus 1 0; mkTok TNum 2 1; mkTok TEOF 2 0].
+  fst (lex_all (bs "1-2")) = [mkTok TNum 0 1; mkTok TMinus 1 0; mkTok TNum 2 1; mkTok TEOF 3 0].
 Proof. vm_compute. repeat split. Qed.
 
 (* general form: a digit run not followed by a digit nor by '.'+digit *)
@@ -177,3 +177,44 @@ Example expr_layout_insensitive_ex :
   | _, _ => False
   end.
 Proof. vm_compute. repeat split. Qed.
+
+(* ---- and with line ends and '#' comments in the gaps (a comment runs to a line end; the
+   expression parser skips line ends): any such layout of an expression's tokens gives the
+   same position-free tree *)
+Theorem expr_gaps_insensitive : forall force e items trail, wf_sexpr e = true ->
+  map snd items = print force 1 e -> Gaps true items -> is_gap trail ->
+  exists e1 st1 e2 st2,
+    parse_expression_src (lay items trail) = POk e1 st1 /\
+    parse_expression_src (text_of (print force 1 e)) = POk e2 st2 /\
+    strip (lay items trail) e1 = strip (text_of (print force 1 e)) e2.
+Proof. exact Syntax.expr_gaps_insensitive. Qed.
+Print Assumptions expr_gaps_insensitive.
+
+Definition ex_gap_items : list (bytes * stoken) :=
+  [([], KNum (bs "8"));
+   ([32%N] ++ 35%N :: bs " eight" ++ 10%N :: [32%N; 32%N], KFix TMinus);
+   ([] ++ 10%N :: [], KNum (bs "3"));
+   ([32%N], KFix TMinus);
+   ([9%N], KNum (bs "2"))].
+Definition ex_gap_e : sexpr :=
+  SBin TMinus (SBin TMinus (SNum (bs "8")) (SNum (bs "3"))) (SNum (bs "2")).
+
+Example expr_gaps_insensitive_ex :
+  wf_sexpr ex_gap_e = true /\ map snd ex_gap_items = render ex_gap_e /\
+  Gaps true ex_gap_items /\ is_gap ([32%N] ++ 10%N :: []) /\
+  match parse_expression_src (lay ex_gap_items ([32%N] ++ 10%N :: [])) with
+  | POk e1 _ => strip (lay ex_gap_items ([32%N] ++ 10%N :: [])) e1 = Some ex_gap_e
+  | _ => False
+  end.
+Proof.
+  split; [reflexivity|]. split; [reflexivity|]. split; [|split].
+  - unfold ex_gap_items. cbn [Gaps].
+    repeat split; try reflexivity; try (left; reflexivity); try (right; discriminate).
+    + apply gap_ws; reflexivity.
+    + apply gap_cmt; [reflexivity|reflexivity|apply gap_ws; reflexivity].
+    + apply gap_nl; [reflexivity|apply gap_ws; reflexivity].
+    + apply gap_ws; reflexivity.
+    + apply gap_ws; reflexivity.
+  - apply gap_nl; [reflexivity|apply gap_ws; reflexivity].
+  - vm_compute. reflexivity.
+Qed.
